@@ -11,18 +11,21 @@ RULE = ("corpus; every string of <= k tokens over { } \" , = NL \\ @a a SP behin
         "(k=4 quick, 5 thorough: exhaustive for that alphabet); random documents with CRLF, backslash-newline, "
         "several blocks per line, non-ASCII text. Compared: class, start_line, raw, keys, fields with lines, "
         "abort class of every block the splitter hands to Library.add. Non-trivial = at least one block returned.")
-LEVEL_TEXT = ("Lean theorems tiling_chars / line_true: for EVERY text the raws of the blocks returned by the splitter "
-              "model tile '\\n'+text in order with whitespace-only gaps and every start_line equals the number of preceding "
-              "newlines - an invariant of the splitter automaton proved by induction over the token list, all lengths and "
-              "nesting depths at once; the model is tied to splitter.py by differential execution on every run.")
+LEVEL_TEXT = ("Lean theorems tiling_chars / line_true / field_line_true: for EVERY text the raws of the blocks returned by the "
+              "splitter model tile '\\n'+text in order with whitespace-only gaps, every start_line equals the number of "
+              "preceding newlines, and every field of every returned entry (live or inside a duplicate-field wrapper) has "
+              "its own '=' mark in the token stream, directly preceded by its key tokens and the separating ',', with "
+              "field.key the stripped key text and field.line the number of newlines of the input in front of that '=' "
+              "(entry_placed: the fields occur in order inside the entry's own token run) - invariants of the splitter "
+              "automaton proved by induction over the token list, all lengths and nesting depths at once; the model is "
+              "tied to splitter.py by differential execution on every run.")
 LEVEL_NOTE = ("Trusted: Lean kernel + 3 standard axioms; the hand-written model Lex/Split.lean; the correspondence run "
               "(bounded-exhaustive token strings + random documents); CPython re semantics for the one mark regex; "
-              "\\w does not match newline (checked). Field-line clause proved only as 'line counter at the = mark'.")
+              "\\w does not match newline (checked).")
 TECHNIQUE = "Lean 4 proof: automaton invariant by induction over tokens; differential correspondence model vs splitter.py"
 EXHAUSTIVE = {"quick": False, "thorough": False}
 ASSUMPTIONS = ["regex \\w never matches a newline (WordOK), checked over all code points this run"]
-PARTIAL = ["field lines: proved as 'the line counter at the = mark' for arbitrary text; the reading "
-           "'number of newlines before the =' is proved for grammar documents in C02"]
+PARTIAL = []
 
 
 def corpus():
